@@ -23,7 +23,12 @@ One executor (`World.execute`) performs abstract histories on the REAL code in a
                              or its status was changed without it running), the write_env segment, exit.
 
 and logs one event per Persist action with the observed classification of every file and the observed outcome of the
-reads.  Persist.tla is a relation: the order of the entries, writing in place or through a temporary file, skipping or
+reads.  A file is classified by its meaning and by what the harness itself saw, never by comparing it with a
+serialization made at another time (two writes of one entry need not be byte-identical, a re-read mapping need not keep
+the order of its keys): full = it unpickles to exactly {task: an entry (deep-)equal to one that was created for the
+task}; partial = a proper prefix of the bytes that went through the wrapped open during the write that died on this very
+file (or of the complete file the harness cut short); garbage = what the harness put there / anything else.
+Persist.tla is a relation: the order of the entries, writing in place or through a temporary file, skipping or
 replacing an unopenable destination are left open and resolved by what was observed; what the statement demands is
 not: when write_env returns, every entry with an output directory counts as written.
 
